@@ -190,10 +190,11 @@ def _retrieve(prog, rep):
         b = ast.copy_location(ast.If(test=ast.parse('%s != 0' % L, mode='eval').body, body=b.orelse, orelse=b.body), b)
         ast.fix_missing_locations(b)
     emp = [norm(x) for x in b.orelse]
+    early = emp == ['return []']          # guard-clause form: `if hops == 0: return []`
     alloc = [x for x in b.body if isinstance(x, ast.Assign) and m.match(x.value, "np.zeros((int(%s + 1), 1), dtype='int')" % L) or
              (isinstance(x, ast.Assign) and m.match(x.value, 'np.zeros((int(%s + 1), 1), dtype=int)' % L))]
     PA = norm(alloc[0].targets[0]) if alloc else 'path'
-    rep.ob('R.empty-iff-zero-hops', f, b.test, emp == ['%s = []' % PA], 'with zero hops (unreachable or s == t) the result must be empty, and only then', line=b.lineno)
+    rep.ob('R.empty-iff-zero-hops', f, b.test, emp == ['%s = []' % PA] or early, 'with zero hops (unreachable or s == t) the result must be empty, and only then', line=b.lineno)
     rep.ob('R.array-has-hops-plus-one-slots', f, alloc[0] if alloc else 'path = np.zeros((hops + 1, 1))', len(alloc) == 1, 'a path with h hops has h + 1 nodes', line=b.lineno)
     first = [x for x in b.body if m.match(x, '%s[0] = %s' % (PA, s_))]
     rep.ob('R.first-slot-is-the-source', f, first[0] if first else '%s[0] = s' % PA, len(first) == 1, 'slot 0 must hold the source', line=b.lineno)
@@ -208,7 +209,7 @@ def _retrieve(prog, rep):
     rep.ob('R.every-slot-written-by-following-next-hops', f, lp[0] if lp else 'for ind in range(1, len(path))', ok,
            'slots 1..h must each be written once with the next hop from the current node towards the *same* target t, advancing the current node', line=b.lineno)
     for r in cfg.returns:
-        rep.ob('R.returns-path', f, r, norm(r.value) == PA, 'must return the path')
+        rep.ob('R.returns-path', f, r, norm(r.value) == PA or (early and norm(r.value) == '[]' and any(r is x for x in b.orelse)), 'must return the path')
 
 
 def _navigation(prog, rep):
@@ -269,7 +270,10 @@ def _navigation(prog, rep):
     sr = [s for s in stmts if isinstance(s, ast.Assign) and norm(s.targets[0]) == 'sr']
     inf_ix = [s for s in stmts if where_unpack(s) is not None and (m.match(where_unpack(s)[1], 'PL_bin.flat == np.inf') or m.match(where_unpack(s)[1], 'PL_bin == np.inf'))]
     dg = [norm(s) for s in stmts if isinstance(s, ast.Expr) and norm(s).startswith('np.fill_diagonal(PL_')]
-    oksr = len(sr) == 1 and len(inf_ix) == 1 and norm(sr[0].value) in ('1 - (len(inf_ixes) - n) / (n ** 2 - n)', '1 - (len(inf_ixes) - n) / (n * n - n)') and len(dg) == 3
+    cnt = 'np.count_nonzero(PL_bin == np.inf)'
+    oksr = len(sr) == 1 and len(dg) == 3 and (
+        (len(inf_ix) == 1 and norm(sr[0].value) in ('1 - (len(inf_ixes) - n) / (n ** 2 - n)', '1 - (len(inf_ixes) - n) / (n * n - n)')) or
+        norm(sr[0].value) in ('1 - (%s - n) / (n ** 2 - n)' % cnt, '1 - (%s - n) / (n * n - n)' % cnt, '1 - (%s - n) / (n * (n - 1))' % cnt))
     rep.ob('N.success-ratio', f, sr[0] if sr else 'sr', oksr, 'success ratio = 1 - (#infinite entries - n diagonal entries) / (n^2 - n)', line=f.node.lineno)
 
 
